@@ -6,6 +6,8 @@ from vlib.core import Case
 from vlib import xcdr_common as X
 
 ENGINE = "xcdr"
+BINS = ["xcdr", "dsim", "handle"]
+LEAN_MODULES = ["DustVerif.Props.C11", "DustVerif.Props.C11E2E"]
 RULE = ("three op lines per case on the real `get_instance_handle_from_dynamic_data` (hook re-export): `kh <type> <v1>`, "
         "`kh <type> <v2>`, `khrt <ver> <endianness> <type> <v1>`; random keyed structure types (1-4 key members: primitives, "
         "strings, enums, arrays, sequences, whole structures; key members inside nested non-key structures; "
@@ -167,6 +169,29 @@ def run(ctx):
     ctx.count("outside wfKey", sum(1 for k in keys if k.startswith("wfk") and not WFK[k].endswith(" 1")))
     for i in range(0, len(cases), 4000):
         ctx.differential(ENGINE, cases[i:i + 4000], nontrivial=nontrivial, oracle=oracle, model_engine=eng, shrink=False)
+    run_e2e(ctx)
+
+
+def run_e2e(ctx):
+    """end-to-end part (engine `handle` = the simulator): the handle the reader presents for a sample received over the wire
+    (DATA and DATA_FRAG, with the inline key hash and without) equals the handle the writer assigned to that key"""
+    from vlib.handle_e2e_common import c11_e2e_cases, c11_e2e_oracle, c11_e2e_nontrivial, c11_e2e_crosscheck
+    from vlib.core import run_cases, harness_bin, model_bin
+    def run_model_lines(lines):
+        outs, _ = run_cases([model_bin(), "handle"], [Case(list(lines))])
+        return outs[0]
+    bad = c11_e2e_crosscheck(run_model_lines)
+    if bad:
+        ctx.disagreements.append({"engine": "handle", "ops": [], "impl": [], "model": [], "what": f"python expectation differs from the Lean definition: {bad}"})
+    cases = c11_e2e_cases(ctx.rng, ctx.tier)
+    outs, _ = run_cases([harness_bin("handle")], cases)
+    for c, o in zip(cases, outs):
+        ctx.stats["evaluations"] += 1
+        ctx.count("e2e cases")
+        if c11_e2e_nontrivial(c, o):
+            ctx.stats["distinct_nontrivial"] += 1
+        for v in c11_e2e_oracle(c, o):
+            v.setdefault("ops", c.lines); v["engine"] = "handle"; ctx.violations.append(v)
 
 
 TECHNIQUE = ("Lean 4 theorems over the key-holder model on top of the XCDR model (injectivity of the key serialization from the "
